@@ -328,6 +328,18 @@ def case_list(spec_name, cls, strong_ok, spd, n, ctx):
             C(tol=1e-6, strong=True, rhs="own_coef", rr=False, ric=True)
         C(tol=1e-12, rr=True, ric=False, rhs="own_proj")
         C(tol=1e-10, maxiter=2, rr=True, ric=True)
+    if cls in ("blocked", "generalized") and strong_ok:
+        # lists of grid functions with MIXED dtypes (one block real, the others complex), as solution (through A * f) and as
+        # right-hand side (rhs-first manufacture): the stacked vector must be promoted over all entries
+        add("mul", fc="mixed_f")
+        add("mul", fc="mixed_f_last")
+        add("lu", rhs="lib", fc="mixed_f")
+        add("lu", rhs="own_coef", fc="mixed_rhs")
+        add("lu", rhs="own_proj", fc="mixed_rhs_last")
+        G(tol=1e-8, strong=True, restart=2 * n, rhs="own_coef", fc="mixed_rhs")
+        G(tol=1e-8, strong=True, restart=2 * n, rhs="own_proj", fc="mixed_rhs_last", rr=False)
+        G(tol=1e-8, strong=True, restart=2 * n, rhs="lib", fc="mixed_f", ric=False)
+        G(tol=1e-8, strong=False, restart=2 * n, rhs="own_coef", fc="mixed_rhs_last")
     if not ctx.quick:
         kinds_w = rhs_kinds if not rd else ["own_proj", "own_proj", "lib"]
         for _ in range(4):
@@ -360,11 +372,29 @@ class Checker:
         self.stats = {"weak": 0, "strong": 0, "maxiter_hit_gmres": 0, "maxiter_hit_cg": 0, "expected_converge": 0, "expected_fail": 0, "borderline": 0,
                       "spy_records": 0, "spy_missed": 0, "lu_factor_nonsym": 0, "complex_op": 0, "complex_rhs_real_op": 0, "unequal_blocks": 0,
                       "permuted_block_sizes": 0, "cg_weak": 0, "cg_strong": 0, "residual_lists_checked": 0, "counts_checked": 0, "tols": set(),
-                      "lib_rhs_skipped": 0, "space_checks": 0}
+                      "lib_rhs_skipped": 0, "space_checks": 0, "mixed_dtype_lists": 0}
 
     # -------------------------------------------------------------------------------------------- manufactured data
     def draw(self, S, cid, fc):
         rng = self.ctx.rng(cid, "f")
+        self._mixed_r = None
+        if isinstance(fc, str) and fc.startswith("mixed_rhs"):
+            # rhs-first: range coefficient blocks r_i with one REAL block and the others complex; p_i = M_i r_i, c = Aw^-1 p
+            real_block = len(S.ran_sizes) - 1 if fc.endswith("_last") else 0
+            r = [rng.normal(size=m) + (0.0 if i == real_block else 1j * rng.normal(size=m)) for i, m in enumerate(S.ran_sizes)]
+            p = np.concatenate([S.M[i] @ ri for i, ri in enumerate(r)])
+            c = np.linalg.solve(S.Aw, p)
+            self._mixed_r = (real_block, r)
+            f = [self.api.GridFunction(sp, coefficients=ci.copy()) for sp, ci in zip(S.domains, split(c, S.dom_sizes))]
+            self.stats["mixed_dtype_lists"] += 1
+            return f, c, p
+        if isinstance(fc, str) and fc.startswith("mixed_f"):
+            real_block = len(S.dom_sizes) - 1 if fc.endswith("_last") else 0
+            blocks = [rng.normal(size=m) + (0.0 if i == real_block else 1j * rng.normal(size=m)) for i, m in enumerate(S.dom_sizes)]
+            f = [self.api.GridFunction(sp, coefficients=bi.copy()) for sp, bi in zip(S.domains, blocks)]
+            c = np.concatenate([np.asarray(bi, dtype=complex) for bi in blocks])
+            self.stats["mixed_dtype_lists"] += 1
+            return f, c, S.Aw @ c
         c = rng.normal(size=S.n)
         if fc:
             c = c + 1j * rng.normal(size=S.n)
@@ -414,6 +444,14 @@ class Checker:
         if kind == "lib":
             return self.lib_rhs(S, f, p, cid, cfg)
         ps = split(p, S.dual_sizes)
+        if self._mixed_r is not None:
+            # keep the dtypes of the manufactured blocks: the real block is handed over as a real array
+            rb, r = self._mixed_r
+            if kind == "own_proj":
+                lst = [api.GridFunction(S.ranges[i], projections=(np.real(ps[i]).copy() if i == rb else ps[i].copy()), dual_space=S.duals[i]) for i in range(len(S.ranges))]
+            else:
+                lst = [api.GridFunction(S.ranges[i], coefficients=r[i].copy()) for i in range(len(S.ranges))]
+            return lst
         if kind == "own_proj":
             lst = [api.GridFunction(S.ranges[i], projections=ps[i].copy(), dual_space=S.duals[i]) for i in range(len(S.ranges))]
         elif kind == "own_coef":
@@ -613,7 +651,7 @@ class Checker:
         if cls == "fail" and info > 0:
             st["maxiter_hit_" + solver] += 1
         if os.environ.get("VERIF_C15_VERBOSE"):
-            print("  %-28s %s tol=%.0e restart=%s maxiter=%s strong=%d rhs=%s fc=%d -> ref %s/%d its/%.1e | lib info %d, true %.2e, err %.2e"
+            print("  %-28s %s tol=%.0e restart=%s maxiter=%s strong=%d rhs=%s fc=%s -> ref %s/%d its/%.1e | lib info %d, true %.2e, err %.2e"
                   % (cid, solver, tol, cfg.get("restart"), cfg["maxiter"], strong, cfg["rhs"], cfg["fc"], cls, ref_its, ref_rr, info,
                      -1 if true_rel is None else true_rel, -1 if err is None else err), flush=True)
         # --- bookkeeping monitor
